@@ -141,6 +141,7 @@ func init() {
 			c.rulesR4ctxret()
 			c.rulesR4loopexit()
 			c.rulesR4safeclose()
+			c.rulesR4hlock()
 			c.rulesR4endsend(c.lockAnalysis())
 			c.rulesR3misc("C13")
 			c.rulesR3misc("C06") // C06.close: a waiter collected but never closed survives Dispose
